@@ -34,6 +34,7 @@ RelQueries == { Q("$", <<Child(SName(x_))>>), Q("$", <<Child(SName(y_))>>), Q("$
                 Q("$", <<Child(SIndex(1)), Child(SName(x_))>>), Q("$", <<Child(SWild), Child(SName(x_))>>), Q("$", <<Seg(FALSE, <<SIndex(0), SIndex(2)>>)>>),
                 Q("$", <<Child(SIndex(2)), Child(SIndex(1))>>), Q("$", <<Child(SName(b_))>>), Q("$", <<Child(SName(n1_))>>), Q("$", <<Child(SWild), Child(SName(y_))>>),
                 Q("$", <<Child(SIndex(1)), Child(SName(x_)), Child(SWild), Child(SName(y_))>>), Q("$", <<Child(SName(x_)), Child(SIndex(1))>>),
+                Q("$", <<Child(SName(y_)), Child(SSlice(<<>>, <<>>, <<0>>))>>),       \* a zero step selects nothing
                 Q("$", <<Child(SName(q_))>>), Q("$", <<Child(SName(q_)), Child(SName(p_))>>), Q("$", <<Child(SName(q_)), Child(SName(q_)), Child(SIndex(0))>>),
                 Q("$", <<Child(SName(y_)), Seg(FALSE, <<SIndex(2), SIndex(10)>>)>>), Q("$", <<Child(SName(y_)), Child(SSlice(<<8>>, <<12>>, <<>>))>>),
                 \* negative indices address the same elements as their normalized spelling
